@@ -73,4 +73,10 @@ CHECKS = {
                  "and judged with the model (documented bytes for must-accept definitions, value-level round trip otherwise; skipped fields neither encoded nor "
                  "written); after a rejection the types possibly published on the way are requested again and used.",
          "note": TB + " The abstract reading of each tag string is part of the specification's table (strconv.Atoi semantics)."},
+ "C15": {"technique": "implementation-shaped TLA+ state machine of JSONOutput (stack / depth / inField, token output) with a token-level parser, model-checked; real outputs parsed and compared with the model's call tree",
+         "text": "TLC explores every well-nested call sequence up to a bound on output tokens (incl. Reset at any point) and checks Parse(out) = call tree, stack = open "
+                 "containers, Reset = Init; the same sequences, exhaustive string / name universes (all bytes, pairs, triples over a 13-class alphabet), integer and "
+                 "float boundaries and random deep call trees on outputters re-used after complete and abandoned documents are executed on the real JSONOutput; "
+                 "TLC compares the encoding/json parse of each output with TreeOf(calls) leaf by leaf.",
+         "note": "Trusted base: TLC; encoding/json as the independent JSON parser; the harness's tree projection. Strings that are not valid UTF-8 are only required to give a valid document."},
 }
